@@ -392,7 +392,7 @@ def gen_lemmas():
             specs.append(txt)
         else:
             nospec[name] = why
-    lines = ['import Pi2.Lemma',
+    lines = ['import Pi2.LemmaDefs',
              '/-! GENERATED by /verif/vlib/translemma.py from proofs/propositional.py and tautology.py (Python `ast`): the body of every',
              'schematic method as a `Lem.Def`, its documented schema as a `Lem.Spec` — do not edit. -/',
              'open Pat', 'namespace Gen',
